@@ -1335,6 +1335,13 @@ func (c *FnCtx) execConvert(st *State, in *ssa.Convert) Val {
 	case isFloat(from) && isFloat(to):
 		return x
 	case isFloat(from) && isInteger(to):
+		if c.wantsKind("conv") {
+			// opt-in: a float to integer conversion keeps the value only for an integral value in range
+			lo, hi := intRange(to)
+			r := x.(VReal).T
+			c.oblige(st, "conv", c.anchor(in), in.Pos(), and(app("is_int", r), le(app("to_real", lo), r), le(r, app("to_real", hi))),
+				fmt.Sprintf("conversion %s -> %s keeps the value (integral and in range)", from, to), nil)
+		}
 		c.note("float to integer conversion is approximated by floor")
 		return VInt{c.define(in.Name(), sInt, app("to_int", x.(VReal).T))}
 	case isString(from) && isByteSlice(to):
